@@ -486,10 +486,10 @@ int main(int argc, char **argv) {
             dom_full(r, &f);
         else
             dom_fine_raw(r, 2, &f);
-        for (size_t i = 0; i < f.n; i += (r <= 1 || mc_thorough ? 1 : 11)) uv_push(&g_dom, f.v[i]);
+        for (size_t i = 0; i < f.n; i += (r <= 1 ? 1 : mc_thorough ? 3 : 11)) uv_push(&g_dom, f.v[i]);
         uv_free(&f);
     }
-    snprintf(mc_bounds, sizeof mc_bounds, "origins: FULL(0..1) + FINE level 2 (%s) at resolutions 2..15 = %zu origins; k<=%d (1 at res 0, 2 at res 1); 11 patterns (full, centre removed, island in hole, alternate, two disks, one neighbour removed, thick ring, scattered ring, nested donuts, nested donuts + isolated cells, triple nesting)", mc_thorough ? "all" : "every 11th", g_dom.n, g_kmax);
+    snprintf(mc_bounds, sizeof mc_bounds, "origins: FULL(0..1) + FINE level 2 (%s) at resolutions 2..15 = %zu origins; k<=%d (1 at res 0, 2 at res 1); 11 patterns (full, centre removed, island in hole, alternate, two disks, one neighbour removed, thick ring, scattered ring, nested donuts, nested donuts + isolated cells, triple nesting)", mc_thorough ? "every 3rd" : "every 11th", g_dom.n, g_kmax);
     mc_phase("sets around the poles (error clause)", ph_polar, NULL);
     mc_phase("sets with a planted non-cell (error clause)", ph_bad, NULL);
     mc_phase("wide bands at resolutions 0-2", ph_band, NULL);
